@@ -263,6 +263,9 @@ func cmdRun(args []string) {
 	}
 	flush()
 	if d.Extra != nil && !*noExtra && si == 0 {
+		if *progress {
+			fmt.Fprintln(os.Stderr, "@extra")
+		}
 		d.Extra(ctx)
 	}
 	if d.Finish != nil {
